@@ -108,15 +108,27 @@ fn check_pair(st: &mut St<X>, a: u8, b: u8) {
             let t = format!("{} {}", one(a), one(b));
             Box::leak(t.into_boxed_str())
         };
-        let made: [(&str, Option<Two>); 6] = [
+        let made: [(&str, Option<Two>); 8] = [
             ("Two::from([u32; 2])", Some(Two::from([wa, wb]))),
             ("Two::from(&[u32; 2])", Some(Two::from(&[wa, wb]))),
             ("Two::sort", Some(t.sort())),
+            ("Two::new(b, a) then set_first(a), set_second(b)", {
+                let mut h = Two::new(wb, wa);
+                h.set_first(wa);
+                h.set_second(wb);
+                Some(h)
+            }),
+            ("Two::default() then set_second(b), set_first(a)", {
+                let mut h = Two::default();
+                h.set_second(wb);
+                h.set_first(wa);
+                Some(h)
+            }),
             ("Two::try_from(&str) letters", Two::try_from(txt(false)).ok()),
             ("Two::try_from(&str) glyphs", Two::try_from(txt(true)).ok()),
             ("Two::try_from(BinaryCard)", Two::try_from(model::bit(a) | model::bit(b)).ok()),
         ];
-        st.rep.evaluations += 6;
+        st.rep.evaluations += 8;
         for (how, hand) in made {
             match hand {
                 Some(h) => {
